@@ -438,6 +438,22 @@ def pool_pair(ctx, L, rule="R-POOL-PAIR"):
                 ctx.violated(rule, p, inst, "setter stores %s" % (pretty(st[0].target) if st else None), p.node)
 
 
+def wake_var(f):
+    """name of the wake-up variable of a job pass (or of a helper that carries it): the returned name, or the name handed to the
+    same-class helper whose result is returned"""
+    for n in ast.walk(f.node):
+        if isinstance(n, ast.Return) and isinstance(n.value, ast.Name):
+            return n.value.id
+    assigned = {t.id for n in ast.walk(f.node) if isinstance(n, ast.Assign) for t in n.targets if isinstance(t, ast.Name)}
+    for n in ast.walk(f.node):
+        if isinstance(n, ast.Return) and isinstance(n.value, ast.Call) and isinstance(n.value.func, ast.Attribute) and \
+                isinstance(n.value.func.value, ast.Name) and n.value.func.value.id == "self":
+            cands = [a.id for a in n.value.args if isinstance(a, ast.Name) and a.id in assigned]
+            if len(cands) == 1:
+                return cands[0]
+    return None
+
+
 def _min_form(a, var, pm):
     """assignment `a` to `var` keeps the running minimum: min(var, X) / guarded by `var > X` / conditional expression"""
     v = a.value
@@ -467,30 +483,37 @@ def _min_form(a, var, pm):
 
 
 def _helper_keeps_min(ctx, cls, call, var, depth=0):
-    """`var = self.h(.., var, ..)`: h is a helper of the same class that receives the wake-up time in one parameter, only ever lowers
+    """-> number of running-minimum updates inside (0 or more) when the helper keeps the minimum, None otherwise.
+    `var = self.h(.., var, ..)`: h is a helper of the same class that receives the wake-up time in one parameter, only ever lowers
     it in the running-minimum forms, and returns it (possibly through further helpers)"""
     from .common import is_helper
     from .robust import parents
     if depth > 3 or not (isinstance(call, ast.Call) and isinstance(call.func, ast.Attribute) and isinstance(call.func.value, ast.Name)
                          and call.func.value.id == "self"):
-        return False
+        return None
     h = ctx.prog.find_method(cls, call.func.attr)
     if h is None or not is_helper(h):
-        return False
+        return None
     pos = [i for i, x in enumerate(call.args) if isinstance(x, ast.Name) and x.id == var]
     kw = [k.arg for k in call.keywords if isinstance(k.value, ast.Name) and k.value.id == var]
     if len(pos) + len(kw) != 1:
-        return False
+        return None
     pv = h.params[pos[0]] if pos and pos[0] < len(h.params) else (kw[0] if kw else None)
     if pv is None:
-        return False
+        return None
     pm = parents(h.node)
+    cnt = 0
     for n in ast.walk(h.node):
         if isinstance(n, ast.Assign) and any(isinstance(t, ast.Name) and t.id == pv for t in n.targets):
-            if not (_min_form(n, pv, pm) or _helper_keeps_min(ctx, cls, n.value, pv, depth + 1)):
-                return False
+            if _min_form(n, pv, pm):
+                cnt += 1
+                continue
+            sub_ = _helper_keeps_min(ctx, cls, n.value, pv, depth + 1)
+            if sub_ is None:
+                return None
+            cnt += sub_
         elif isinstance(n, (ast.AugAssign, ast.AnnAssign)) and isinstance(n.target, ast.Name) and n.target.id == pv:
-            return False
+            return None
         elif isinstance(n, ast.Return):
             v = n.value
             if isinstance(v, ast.Name) and v.id == pv:
@@ -498,10 +521,12 @@ def _helper_keeps_min(ctx, cls, call, var, depth=0):
             if v is not None and isinstance(v, ast.Call) and isinstance(v.func, ast.Name) and v.func.id == "min" and \
                     any(isinstance(x, ast.Name) and x.id == pv for x in v.args):
                 continue
-            if v is not None and _helper_keeps_min(ctx, cls, v, pv, depth + 1):
+            sub_ = _helper_keeps_min(ctx, cls, v, pv, depth + 1) if v is not None else None
+            if sub_ is not None:
+                cnt += sub_
                 continue
-            return False
-    return True
+            return None
+    return cnt
 
 
 def wakeup_min(ctx, func, rule="R-WAKEUP-MIN", tag=""):
@@ -509,10 +534,7 @@ def wakeup_min(ctx, func, rule="R-WAKEUP-MIN", tag=""):
     its initialisation is `if wake > X: wake = X` or `wake = min(wake, X)`"""
     f = func
     # the wake-up variable: returned by the DLL scan / used for the sleep in the ECU loop
-    var = None
-    for n in ast.walk(f.node):
-        if isinstance(n, ast.Return) and isinstance(n.value, ast.Name):
-            var = n.value.id
+    var = wake_var(f)
     if var is None:
         for n in ast.walk(f.node):
             if isinstance(n, ast.Assign) and isinstance(n.value, ast.Call) and isinstance(n.value.func, ast.Attribute) and n.value.func.attr == "async_job_thread" \
@@ -530,7 +552,13 @@ def wakeup_min(ctx, func, rule="R-WAKEUP-MIN", tag=""):
         if k == 0:
             continue  # initialisation (now + 5 s / result of the DLL scan)
         v = a.value
-        ok = _min_form(a, var, pm) or (f.cls is not None and _helper_keeps_min(ctx, f.cls, v, var))
+        ok = _min_form(a, var, pm)
+        if not ok and f.cls is not None:
+            inner = _helper_keeps_min(ctx, f.cls, v, var)
+            ok = inner is not None
+            for q in range(inner or 0):
+                ctx.holds(rule, "%s%s update #%d.%d: running minimum inside %s" % (tag, f.name, k, q, ast.unparse(v.func)[:40]))
+                n_ok += 1
         inst = "%s%s update #%d: wake-up := %s only when earlier" % (tag, f.name, k, ast.unparse(v)[:40])
         if ok:
             n_ok += 1
@@ -539,6 +567,17 @@ def wakeup_min(ctx, func, rule="R-WAKEUP-MIN", tag=""):
             ctx.violated(rule, f, "%s%s update #%d: next wake-up is a running minimum [%s]" % (tag, f.name, k, ast.unparse(v)[:40]),
                          "the wake-up time is overwritten without the test `later than this deadline`: with several pending deadlines the "
                          "thread sleeps until the one scanned last, and an earlier one is served late", a)
+    for n in ast.walk(f.node):
+        if isinstance(n, ast.Return) and isinstance(n.value, ast.Call) and any(isinstance(a_, ast.Name) and a_.id == var for a_ in n.value.args):
+            inst = "%s%s result: wake-up handed on through %s" % (tag, f.name, ast.unparse(n.value.func)[:40])
+            inner = _helper_keeps_min(ctx, f.cls, n.value, var) if f.cls is not None else None
+            if inner is not None:
+                n_ok += 1
+                ctx.holds(rule, inst)
+                for q in range(inner):
+                    ctx.holds(rule, "%s%s result.%d: running minimum inside %s" % (tag, f.name, q, ast.unparse(n.value.func)[:40]))
+            else:
+                ctx.unknown(rule, "%s: not a helper that keeps the running minimum" % inst)
     if n_ok == 0 and len(assigns) < 2:
         ctx.unknown(rule, "no wake-up updates found in %s" % f.qual)
 
@@ -547,19 +586,19 @@ def wakeup_cover(ctx, L, rule="R-WAKEUP-COVER"):
     """every job-pass path that gives a surviving session a new deadline afterwards folds that deadline into the pass's
     next wake-up (a comparison with / assignment of the wake-up variable after the last deadline store)"""
     f = L.job
-    var = None
-    for n in ast.walk(f.node):
-        if isinstance(n, ast.Return) and isinstance(n.value, ast.Name):
-            var = n.value.id
-    if var is None:
-        ctx.unknown(rule, "wake-up variable not found in %s" % f.qual)
-        return
-    def mentions(node):
-        return any(isinstance(x, ast.Name) and x.id == var for x in ast.walk(node))
     tables = ["_rcv_buffer", "_snd_buffer"] + (["_multi_pg_snd_buffer"] if L.fd else [])
     seen = {}
     for table in tables:
-        for r in scan_runs(ctx, L, table, unroll=2):
+        rs = scan_runs(ctx, L, table, unroll=2)
+        host = ctx.__dict__.get("_scan_host", {}).get((L.cls, table), L.job)
+        var = wake_var(host)
+        if var is None:
+            ctx.unknown(rule, "wake-up variable not found in %s" % host.qual)
+            return
+
+        def mentions(node, var=var):
+            return any(isinstance(x, ast.Name) and x.id == var for x in ast.walk(node))
+        for r in rs:
             E = None
             for i, e in r.effects():
                 if e.kind == "store" and e.target[0] == "sub" and e.target[2] == ("c", "deadline") and root_field(e.target) == table:
